@@ -123,6 +123,7 @@ Fixpoint remz (x : Z) (l : list Z) : list Z :=
 Fixpoint memz (x : Z) (l : list Z) : bool :=
   match l with [] => false | y :: t => (y =? x) || memz x t end.
 Definition is_claim (h : hitem) : bool := match h with HClaim => true | _ => false end.
+Definition keep_on_shutdown (i : hitem) : bool := match i with HAdd | HFee => false | _ => true end.
 Definition nclaims (l : list hitem) : nat := List.length (filter is_claim l).
 Definition bump (u : upd) : upd := mkUpd (uid u + 1) (usteps u).
 
@@ -403,7 +404,10 @@ Definition step (s : st) (l : label) : st * list out :=
          sent at once (comment in ChannelManager::internal_shutdown); closing_signed is what waits. *)
       if (if local then pd c || mip c else pd c) then err s
       else
-        let s1 := on_sd (fun d => mkShut true (if local then sh_remote d else true) (last_sh d)) s in
+        (* "drop holding cell updates as we'd rather fail payments than wait": the queued adds and the queued fee
+           update are removed (and failed back by the manager); queued claims and fails stay *)
+        let s1 := on_ch (fun c0 => c_hold (filter keep_on_shutdown (hold c0)) c0)
+                    (on_sd (fun d => mkShut true (if local then sh_remote d else true) (last_sh d)) s) in
         if script then
           let id := latest c + 1 in
           let s2 := on_sd (fun d => mkShut (sh_local d) (sh_remote d) id) (paused false false false [] (on_ch (c_latest id) s1)) in
